@@ -34,6 +34,7 @@ type NetSpec struct {
 	// OutOrder (constructor-built networks only): the order in which the output neurons are handed to NewNetwork as
 	// its output list, as indexes into the outputs in node order. Empty = node order.
 	OutOrder []int `json:"out_order,omitempty"`
+	Renamed  bool  `json:"renamed,omitempty"`
 }
 
 // outputIds: ids of the output neurons in the order of the network's output list (the order of ReadOutputs).
@@ -123,6 +124,7 @@ type NetCfg struct {
 	AllowOrphans  bool // neurons without any source (DAG variant)
 	ParallelLinks bool // a recurrent and a non-recurrent link on the same ordered pair (cyclic variant)
 	LongChains    bool // one net in fifteen is a long sparse chain (20-70 neurons, at most six shortcut links)
+	Rename        bool // one net in five gets its node ids permuted (sensors no longer first in the node list)
 }
 
 func genNet(cfg NetCfg) *rapid.Generator[NetSpec] {
@@ -159,7 +161,55 @@ func drawChain(t *rapid.T) NetSpec {
 	return s
 }
 
+// renameNet applies a generated permutation to the node ids: the node list (kept sorted by id) then no longer starts with
+// the sensors, and hidden nodes may precede inputs and outputs.
+func renameNet(t *rapid.T, s NetSpec) NetSpec {
+	ids := make([]int, len(s.Nodes))
+	for i, n := range s.Nodes {
+		ids[i] = n.Id
+	}
+	perm := rapid.Permutation(ids).Draw(t, "node id permutation")
+	m := map[int]int{}
+	for i, id := range ids {
+		m[id] = perm[i]
+	}
+	// outputs in node order change with the renaming: keep the output list as the same neurons in the same order
+	oldOut := s.outputIds()
+	for i := range s.Nodes {
+		s.Nodes[i].Id = m[s.Nodes[i].Id]
+	}
+	sort.Slice(s.Nodes, func(a, b int) bool { return s.Nodes[a].Id < s.Nodes[b].Id })
+	for i := range s.Links {
+		s.Links[i].From, s.Links[i].To = m[s.Links[i].From], m[s.Links[i].To]
+	}
+	if !s.ViaGenome && len(s.OutOrder) > 0 {
+		var newOut []int
+		for _, n := range s.Nodes {
+			if n.Role == roleOutput {
+				newOut = append(newOut, n.Id)
+			}
+		}
+		for i, old := range oldOut {
+			for k, id := range newOut {
+				if id == m[old] {
+					s.OutOrder[i] = k
+				}
+			}
+		}
+	}
+	s.Renamed = true
+	return s
+}
+
 func drawNet(t *rapid.T, cfg NetCfg) NetSpec {
+	s := drawNetPlain(t, cfg)
+	if cfg.Rename && rapid.IntRange(0, 4).Draw(t, "rename nodes") == 0 {
+		s = renameNet(t, s)
+	}
+	return s
+}
+
+func drawNetPlain(t *rapid.T, cfg NetCfg) NetSpec {
 	if cfg.LongChains && !cfg.Cyclic && rapid.IntRange(0, 29).Draw(t, "long chain") == 13 {
 		return drawChain(t)
 	}
